@@ -83,6 +83,24 @@ TEMPLATES = [
     (["s{k} = '''text", "  inside a string", "'''"], ["o", "", "t"]),
     (["z{k} = 1 + \\", "    undef_{k}"], ["o", "t"]),
 ]
+# broader shapes: nested functions and classes (bodies run only when the outer function is called),
+# decorators, multi-line strings followed by code, non-ASCII identifiers and string contents
+TEMPLATES += [
+    (["def inner{k}(a=undef_{k}):", "    return a + undef_{k}b"], ["to", "to"]),
+    (["@takes_int", "def deco{k}(): return undef_{k}"], ["to", "to"]),
+    (["@staticmethod", "def sm{k}(a: int = 'x'): return a"], ["to", "to"]),
+    (["class C{k}:", "    attr{k} = undef_{k}", "    def m{k}(self): return undef_{k}b + 1 + 'a'"], ["to", "to", "to"]),
+    (["lam{k} = lambda: undef_{k}"], ["to"]),
+    (["s{k} = \'\'\'line", "still string\'\'\' + undef_{k}"], ["o", "t"]),
+    (["print(undéf_{k})"], ["to"]),
+    (["print('ünï → ☃', undef_{k}, 1 + 'é')"], ["to"]),
+    (["ß{k} = takes_int('ß')"], ["to"]),
+    (["print(takes_int(", "    's'),", "    undef_{k})"], ["to", "to", "to"]),
+    (["async def co{k}():", "    return undef_{k}"], ["to", "to"]),
+    (["try:", "    print(undef_{k})", "except ValueError:", "    print(undef_{k}b)", "finally:", "    print(1 + 'a')"], ["to", "to", "to", "to", "to", "to"]),
+    (["with open(os.devnull) as fh{k}:", "    print(fh{k}.nope_{k}, undef_{k})"], ["to", "to"]),
+]
+
 FIRST_LINE_ERRORS = [
     "def first_{k}(): return undef_first_{k}",
     "def first_{k}(): return undef_first_{k}, 1 + 'a'",
@@ -128,27 +146,58 @@ def gen_program(rng, size=None):
             lines.append(" " * ind + f"def f{fresh()}(x{k[0]}_cond=None{params}):")
         tags.append("to")
         body = ind + 4
+        use_tabs = ind == 0 and rng.random() < 0.12
         nst = rng.choice([1, 2, 3, 4, 5])
         for _ in range(nst):
             tl, tt = rng.choice(templates)
             kk = fresh()
+            if use_tabs and any("\'\'\'" in a for a in tl):
+                continue
             for a, b in zip(tl, tt):
                 a = a.format(k=kk).replace(f"x{kk}_cond", "True")
-                lines.append((" " * body + a) if a else "")
+                if use_tabs and a:
+                    n_lead = len(a) - len(a.lstrip(" "))
+                    lines.append("\t" + "\t" * (n_lead // 4) + a.lstrip(" "))
+                else:
+                    lines.append((" " * body + a) if a else "")
                 tags.append(b)
+        if use_tabs:
+            body = 1  # what follows in this function is indented with one tab
+            if not lines[-1].strip() or lines[-1].lstrip().startswith("#") or lines[-1].rstrip().endswith(":"):
+                lines.append("\tpass")
+                tags.append("to")
+            continue
         # a function body must end in a statement
         if not lines[-1].strip() or lines[-1].lstrip().startswith("#"):
             lines.append(" " * body + "pass")
             tags.append("to")
     if rng.random() < 0.5:
         # make sure the last physical line carries a diagnostic in half of the programs
-        lines.append(" " * body + f"print(undef_last_{fresh()})")
+        lines.append(("\t" if use_tabs else " " * body) + f"print(undef_last_{fresh()})")
         tags.append("to")
     return lines, tags
 
 
 # ---------------------------------------------------------------------------
 # comment edits
+
+def py_split(text):
+    """node_visitor._split_lines without the re-added newline: the lines of the model's file."""
+    parts = re.split(r"\r\n|\r|\n", text)
+    if parts and parts[-1] == "":
+        parts.pop()
+    return parts
+
+
+def render(lines, style):
+    """style: (eol, final_newline).  CPython compiles all of them to the same line numbering."""
+    eol, final = style
+    return eol.join(lines) + (eol if final else "")
+
+
+def style_for(bi):
+    return [("\n", True), ("\n", True), ("\r\n", True), ("\n", False), ("\n", True), ("\r\n", False)][bi % 6]
+
 
 def comment_text(tc):
     return IGNORE if tc is None else f"{IGNORE}[{tc}]"
@@ -385,6 +434,10 @@ def gen_files():
 
 
 TRACKED_CFG_ROUTES = ["cli", "top", "override", "override_prefix"]
+# overrides for *other* modules must change nothing — including near misses: module names that share
+# a string prefix with the checked module's dotted name without being it or one of its parent packages
+# (the checked module is pa.pb, or pa.pbb / pa.pb_x / pab.pb for an override of pa.pb / pa)
+NEAR_MISS_ROUTES = ["override_other", "near_str_prefix", "near_short", "near_sibling", "near_sibling2", "near_parent_sibling", "near_longer"]
 
 
 def raw_independent(raw0, raw1, enabled):
@@ -413,6 +466,21 @@ def make_cfg(route, S, extra_on=("unused_ignore", "bare_ignore")):
         cfg["override"] = ["pa", S]
     elif route == "override_other":  # an override for another module must change nothing
         cfg["override"] = ["pc", S]
+    elif route == "near_str_prefix":  # "pa.p" is a string prefix of "pa.pb", not a package of it
+        cfg["override"] = ["pa.p", S]
+    elif route == "near_short":  # "p" is a string prefix of "pa"
+        cfg["override"] = ["p", S]
+    elif route == "near_sibling":  # the override names pa.pb, the checked module is pa.pbb
+        cfg["override"] = ["pa.pb", S]
+        cfg["module"] = "pa.pbb"
+    elif route == "near_sibling2":
+        cfg["override"] = ["pa.pb", S]
+        cfg["module"] = "pa.pb_x.sub"
+    elif route == "near_parent_sibling":  # the override names pa, the checked module is pab.pb
+        cfg["override"] = ["pa", S]
+        cfg["module"] = "pab.pb"
+    elif route == "near_longer":  # the override names a submodule of the checked module
+        cfg["override"] = ["pa.pb.sub", S]
     return cfg
 
 
@@ -553,7 +621,7 @@ def run(tier: str, replay: str | None = None):
 
     # 3. baselines first (they decide which edits / code subsets make sense)
     base_cfg = make_cfg("cli", [])
-    base_jobs = [("\n".join(l) + "\n", base_cfg) for l, _ in bases]
+    base_jobs = [(render(l, style_for(bi)), base_cfg) for bi, (l, _) in enumerate(bases)]
     base_res = lines_impl.pool_map(base_jobs)
     harness_problems = []
     d0s = []
@@ -583,12 +651,15 @@ def run(tier: str, replay: str | None = None):
                 for ci, c in enumerate(singles):
                     route = TRACKED_CFG_ROUTES[(bi + ci) % len(TRACKED_CFG_ROUTES)]
                     variants.append({"base": bi, "cfg": make_cfg(route, [c]), "edits": []})
+                # every near-miss override, for the codes the program reports: nothing may change
+                for ri, route in enumerate(NEAR_MISS_ROUTES):
+                    variants.append({"base": bi, "cfg": make_cfg(route, present if ri % 2 else [present[(bi + ri) % len(present)]]), "edits": []})
                 n_sub = 3 if tier == "quick" else 8
                 for si in range(n_sub):
                     S = [c for c in singles if rng.random() < 0.4] or [rng.choice(present)]
                     if si == 0:
                         S = S + [rng.choice(["bad_unpack", "unused_ignore"])]
-                    route = rng.choice(TRACKED_CFG_ROUTES + ["override_other"]) if si else "cli"
+                    route = rng.choice(TRACKED_CFG_ROUTES + NEAR_MISS_ROUTES) if si else "cli"
                     cfg = make_cfg(route, S)
                     variants.append({"base": bi, "cfg": cfg, "edits": []})
                     # comments under a disabling configuration
@@ -607,12 +678,12 @@ def run(tier: str, replay: str | None = None):
             need[key] = None
     jobs, job_meta = [], []
     for (bi, cj) in need:
-        jobs.append(("\n".join(bases[bi][0]) + "\n", json.loads(cj)))
+        jobs.append((render(bases[bi][0], style_for(bi)), json.loads(cj)))
         job_meta.append(("baseline", (bi, cj)))
     for vi, v in enumerate(variants):
         new, newpos, comments = apply_edits(bases[v["base"]][0], v["edits"])
         v["new_lines"], v["newpos"], v["comments"] = new, newpos, comments
-        jobs.append(("\n".join(new) + "\n", v["cfg"]))
+        jobs.append((render(new, style_for(v["base"])), v["cfg"]))
         job_meta.append(("variant", vi))
     for si, (fid, vt, nt) in enumerate(specials):
         jobs.append((vt, base_cfg))
@@ -671,7 +742,7 @@ def run(tier: str, replay: str | None = None):
         want = collections.Counter(d for d in d0s[bi] if d[0] in en)
         got = collections.Counter(tuple(x) for x in r["out"])
         n_oracle += 1
-        hist["disable_" + ("cli" if cfg["cli_off"] else "top" if cfg["top_off"] else "override")] += 1
+        hist["disable_" + ("cli" if cfg["cli_off"] else "top" if cfg["top_off"] else ("override" if set(en) != set(enabled_names(base_cfg, names, dit)) else "override_near_miss"))] += 1
         distinct.add(("disable", bi, cj))
         if want != got:
             failing.append({"kind": "failing-input", "what": "disable is not a projection",
@@ -714,7 +785,7 @@ def run(tier: str, replay: str | None = None):
                             "text": v["new_lines"], "baseline": [list(d) for d in d0], "observed": r["out"], **bad})
 
     for si, (fid, vt, nt) in enumerate(specials):
-        queue_model(("special", si), vt.splitlines(), base_cfg, special_res[("special_v", si)])
+        queue_model(("special", si), py_split(vt), base_cfg, special_res[("special_v", si)])
 
     # 5. correspondence: model vs implementation on the recorded raw streams
     corr_mismatch = []
